@@ -130,6 +130,8 @@ def d1_apply_prior(ck, mod, sigs):
     paths = paths_or_missing(ck, rule, mod, fa, F)
     n_add = n_id = 0
     added = ['%s + %s' % (C, pc), '%s + %s' % (pc, C), 'np.add(%s, %s)' % (C, pc)]
+    # (wrapping the sum into an ndarray only turns the np.matrix of `sparse + array` into an ndarray)
+    added += ['np.asarray(%s + %s)' % (C, pc), 'np.array(%s + %s)' % (C, pc)]
     for d in ('np.array(%s.todense())', 'np.asarray(%s.todense())', '%s.toarray()', '%s.todense().A', '%s.A',
               'np.asarray(%s.toarray())', 'np.array(%s.toarray())'):
         added += ['%s + %s' % (d % C, pc), '%s + %s' % (pc, d % C)]
@@ -196,6 +198,73 @@ def _counts_of(node, C):
     return isinstance(node, ast.Name) and node.id == C
 
 
+_TO_NDARRAY = ('np.array', 'np.asarray', 'np.ascontiguousarray', 'np.asfortranarray', 'numpy.array', 'numpy.asarray')
+
+
+def _ensures_ndarray(node):
+    """Some layer of the conversion chain around `node` guarantees a BASE-CLASS
+    ndarray whatever array-like comes in: np.array / np.asarray (without
+    subok=True), .toarray(), .A.  (.copy(), .astype(), np.asanyarray keep an
+    np.matrix an np.matrix: `*` stays the matrix product, sums stay 2-D.)"""
+    while True:
+        if isinstance(node, ast.Call) and call_name(node) in _TO_NDARRAY:
+            so = [k for k in node.keywords if k.arg == 'subok']
+            return not so or (isinstance(so[0].value, ast.Constant) and so[0].value.value is False)
+        if isinstance(node, ast.Call) and getattr(node, '_from_np_array', False):
+            return True                  # np.array(name), spelled name.copy() by the canonical form
+        if isinstance(node, ast.Call) and isinstance(node.func, ast.Attribute) and node.func.attr == 'toarray':
+            return True
+        if isinstance(node, ast.Attribute) and node.attr == 'A':
+            return True
+        if isinstance(node, ast.Call) and isinstance(node.func, ast.Attribute) and node.func.attr in ('copy', 'astype', 'view') and \
+                not getattr(node, '_from_np_array', False):
+            node = node.func.value
+        elif isinstance(node, ast.Call) and call_name(node) in ('np.asanyarray', 'np.copy') and node.args:
+            node = node.args[0]
+        else:
+            return False
+
+
+def _matrix_may_reach(ck, mod, sigs):
+    """Can an np.matrix reach `_row_normalize` although the callers only pass
+    ndarrays and sparse matrices?  `sparse + dense array` is an np.matrix in
+    scipy, so `C + prior_counts` in _apply_prior_counts yields one for sparse
+    counts with an array-valued prior ("adding prior counts to a sparse matrix
+    legitimately densifies it").  True: some return value of
+    _apply_prior_counts is such a sum of the bare argument; False: every sum
+    is taken of / wrapped into an ndarray; None: not recognised."""
+    fa = mod.func('_apply_prior_counts')
+    if fa is None:
+        return None
+    try:
+        from .msm_common import symexec
+        paths = symexec(fa, sigs)
+    except Exception:
+        return None
+    C = params(fa)[0]
+    verdict = False
+    for p in paths:
+        if p.kind != 'return':
+            continue
+        v = p.value
+        if (isinstance(v, ast.Name) and v.id == C) or _ensures_ndarray(v):
+            continue
+        ops = None
+        if isinstance(v, ast.BinOp) and isinstance(v.op, ast.Add):
+            ops = [v.left, v.right]
+        elif isinstance(v, ast.Call) and call_name(v) in ('np.add', 'numpy.add') and len(v.args) == 2 and not v.keywords:
+            ops = list(v.args)
+        if ops is None:
+            return None
+        if any(_ensures_ndarray(x) for x in ops):
+            continue
+        if any(_counts_of(x, C) for x in ops):
+            verdict = True
+        else:
+            return None
+    return verdict
+
+
 DIAG_FORMS = ['scipy.sparse.dia_matrix((_IW, 0), _SH).tocsr()', 'scipy.sparse.dia_matrix((_IW, 0), _SH)',
               'scipy.sparse.dia_matrix((_IW, 0), _SH).tocsc()', 'scipy.sparse.dia_matrix((_IW, [0]), _SH).tocsr()',
               'scipy.sparse.diags(_IW)', 'scipy.sparse.diags(_IW, 0)', 'scipy.sparse.diags(_IW).tocsr()',
@@ -203,6 +272,27 @@ DIAG_FORMS = ['scipy.sparse.dia_matrix((_IW, 0), _SH).tocsr()', 'scipy.sparse.di
               'scipy.sparse.spdiags(_IW, 0, _N1, _N2)', 'scipy.sparse.spdiags(_IW, 0, _N1, _N2).tocsr()']
 COLUMN_FORMS = ['_IW[:, None]', '_IW.reshape(_N1, 1)', 'np.expand_dims(_IW, 1)', 'np.expand_dims(_IW, axis=1)',
                 'np.expand_dims(_IW, -1)', '_IW[:, None].copy()']
+
+
+def _dense_ndarray(o, sigs, C, A, node, what):
+    """Dense branch: `A` (the counts up to conversions) is used in a way that is
+    only right for a base ndarray."""
+    rule = 'C04.D5.container.dense-ndarray'
+    if _ensures_ndarray(A):
+        return o.check(True, rule, node, 'the dense branch converts its input to a base ndarray before element-wise arithmetic', '',
+                       construct='dense: counts as ndarray (%s)' % u(A)[:60])
+    reach = _matrix_may_reach(o.ck, o.mod, sigs)
+    if reach is False:
+        return o.check(True, rule, node, '_apply_prior_counts never returns np.matrix: only ndarrays reach the dense branch', '',
+                       construct='dense: counts are ndarray at the producer')
+    if reach is None:
+        return o.missing(rule, 'the dense branch of _row_normalize uses `%s` without np.array/np.asarray and the values returned by '
+                         '_apply_prior_counts are not recognised: cannot tell whether np.matrix can reach it' % u(A)[:60])
+    return o.check(False, rule, node, '',
+                   'the dense branch must turn its input into a base ndarray (C = np.array(C)) first: sparse counts + array-valued '
+                   'prior_counts is an np.matrix (scipy), for which %s only after the conversion; on np.matrix `*` is the MATRIX '
+                   'product and axis sums stay 2-D, so T is no longer counts / row totals' % what,
+                   construct='dense: `%s` used without ndarray conversion' % u(A)[:60])
 
 
 def _inv_weights(o, sigs, C, label, IW, dense):
@@ -237,9 +327,13 @@ def _inv_weights(o, sigs, C, label, IW, dense):
               'np.array(_A.sum(axis=1)).ravel()', 'np.asarray(_A.sum(axis=1)).reshape(-1)', '_A.sum(axis=1).A1',
               'np.asarray(_A.sum(1)).flatten()', 'np.asarray(_A.sum(1)).ravel()', 'np.asarray(_A.sum(axis=-1)).flatten()',
               'np.squeeze(np.asarray(_A.sum(axis=1)))', 'np.asarray(_A.sum(axis=1)).squeeze()']
+    flat = list(wforms)
     if dense:
         wforms += ['_A.sum(axis=1)', '_A.sum(1)', '_A.sum(axis=-1)', 'np.asarray(_A.sum(axis=1))', '_A.sum(axis=1).flatten()']
     v = sclassify(W, wforms, {C}, sigs)
+    if v[0] == 'match' and dense and smatch(flat, W, sigs) is None and _counts_of(v[1]['_A'], C):
+        # 1-D only if the summed object is a base ndarray (np.matrix sums stay 2-D)
+        _dense_ndarray(o, sigs, C, v[1]['_A'], W, 'the row sums `%s` are 1-D' % u(W)[:60])
     if v[0] == 'match' and not _counts_of(v[1]['_A'], C):
         v = ('near' if closed_over(v[1]['_A'], {C}) else 'far', 1, 'row sums of %s' % C)
     o.decide(v, rule3, W, 'weights are ROW sums (axis=1) of the counts',
@@ -326,6 +420,10 @@ def d3_row_normalize(ck, mod, sigs):
                 continue
             o.check(True, rule + '.dense', M, 'T[i, j] = C[i, j] * w[i]: weights broadcast as a COLUMN vector', '',
                     construct='dense: counts * inv_weights[:, None]')
+            star = M.value if isinstance(M, ast.Attribute) and M.attr == 'T' else M
+            if isinstance(star, ast.BinOp) and isinstance(star.op, ast.Mult):
+                # `*` is element-wise (broadcast) only for base ndarrays
+                _dense_ndarray(o, sigs, C, b['_A'], M, 'counts * inv_weights[:, None] is the element-wise (broadcast) product')
             _inv_weights(o, sigs, C, label, b['_IW'], True)
     ck.floor(rule + '.sparse', n[True], 1, 'sparse return path of _row_normalize')
     ck.floor(rule + '.dense', n[False], 1, 'dense return path of _row_normalize')
